@@ -14,6 +14,7 @@ for flags that are off - the regions of the recorded defects C15-F1…F4.
 import CobaVerif.Lemmas.C15
 import CobaVerif.Lemmas.C15Hist
 import CobaVerif.Lemmas.C15P4
+import CobaVerif.Lemmas.C15P5
 
 namespace Coba.C15
 
@@ -466,5 +467,83 @@ theorem hasScore_generated (f : ScoreFailure) : hasScore (.raises f) = !strConta
 theorem scoreRaises_generated (f : ScoreFailure) :
     scoreRaises f = if f.attr && strContains f.msg Generated.C15.scoreNeedle then .coba else if f.attr then .attr else .learner :=
   scoreRaises_generated' f
+
+/-! ### Phase 5: nan objects; `possible_pmf` over the generated constants -/
+
+/-- **nan_encoding_faithful.**  `float('nan')` objects live in the model as the tokens `mkNan r` (`NVal.enc`).  Python compares
+container items (`list.__eq__` in `_prev_actions != actions`, `item in actions`) with `x is y or x == y`, where `nan == y` is
+False for every y (`richEq`): on the tokens the model's `pyIs || pyEq` computes exactly that, for every pair of values whose
+numbers lie outside the token range and are other objects than the nan objects (`encOK`, what the encoder guarantees). -/
+theorem nan_encoding_faithful (x y : NVal) (h : encOK x y = true) : richEq x y = itemEq x.enc y.enc :=
+  nan_encoding_faithful' x y h
+
+example : encOK (.nan (.ext 1)) (.val (.flt (.ext 2) (5/2))) = true ∧ encOK (.nan (.ext 1)) (.nan (.ext 1)) = true := by
+  decide +kernel
+
+/-- the hypothesis is needed: a number inside the token range would equal the nan object with that code (replayed: the encoder
+refuses floats below -2^40, tag `unencodable`) -/
+theorem nan_encoding_counterexample :
+    richEq (.nan (.ext 1)) (.val (.flt (.ext 2) (nanVal 4))) = false ∧
+    itemEq (NVal.enc (.nan (.ext 1))) (NVal.enc (.val (.flt (.ext 2) (nanVal 4)))) = true := by
+  decide +kernel
+
+/-- two nan objects are equal in the model iff they are one object; reading a token back gives the nan object -/
+theorem nan_identity (r r' : Ref) :
+    pyEq (mkNan r) (mkNan r') = decide (r = r') ∧ pyIs (mkNan r) (mkNan r') = decide (r = r') ∧ NVal.ofPy (mkNan r) = .nan r :=
+  ⟨pyEq_mkNan' r r', pyIs_mkNan' r r', ofPy_enc_nan' r⟩
+
+/-- `item in actions` (`possible_action`) with real nans = the model's `possibleAction` on the tokens -/
+theorem possibleAction_faithful (x : NVal) (ys : List NVal) (h : ∀ y ∈ ys, encOK x y = true) :
+    possibleAction x.enc (ys.map NVal.enc) = (ys.any (richEq x) || ys.isEmpty) :=
+  possibleAction_faithful' x ys h
+
+/-- `_prev_actions != actions` with real nans = the model's `pyEqList` on the tokens (for objects that, when not nan, equal
+themselves): the cache is hit with ONE shared nan object and missed with a fresh nan object per call -/
+theorem cache_test_faithful (xs ys : List NVal)
+    (h : ∀ x ∈ xs, ∀ y ∈ ys, encOK x y = true ∧ (pyIs x.enc y.enc = true → pyEq x.enc y.enc = true)) :
+    richEqList xs ys = pyEqList (xs.map NVal.enc) (ys.map NVal.enc) :=
+  cache_test_faithful' xs ys h
+
+example : richEqList [.nan (.ext 1), .val (.int 0)] [.nan (.ext 1), .val (.int 0)] = true ∧
+    richEqList [.nan (.ext 1), .val (.int 0)] [.nan (.ext 2), .val (.int 0)] = false := by decide
+
+/-- a nan is not 0/1 (no float copy: the offered object itself is handed on), has no length, is no dict, is no PMF -/
+theorem nan_passes_untouched (r : Ref) (k : Nat) (as : List PyVal) :
+    isZeroOne (mkNan r) = false ∧ makeSafe k (mkNan r) = mkNan r ∧ (mkNan r).hasLen = false ∧ (mkNan r).isDict = false ∧
+    possiblePmf (mkNan r) as = false :=
+  nan_passes_untouched' r k as
+
+/-- **translator obligation, as a rewriting lemma.**  The model's `possiblePmf` IS the source expression
+`len(item) == len(actions) and isclose(sum(item), T, abs_tol=n/d) and all(i >= 0 for i in item)` over the constants the
+translator reads from the CURRENT coba/safety.py (`Generated/C15Consts.lean`); an edited tolerance or total breaks this proof. -/
+theorem possiblePmf_generated (item : PyVal) (actions : List PyVal) :
+    possiblePmf item actions =
+      (match item.items with
+       | some xs =>
+         xs.length == actions.length &&
+           (match sumNums xs with
+            | some s =>
+              decide (s - (Generated.C15.pmfTotal : Rat) ≤ (Generated.C15.absTolNum : Rat) / (Generated.C15.absTolDen : Rat) ∧
+                      (Generated.C15.pmfTotal : Rat) - s ≤ (Generated.C15.absTolNum : Rat) / (Generated.C15.absTolDen : Rat)) &&
+                xs.all (fun x => match x.num with | some q => decide (0 ≤ q) | Option.none => false)
+            | Option.none => false)
+       | Option.none => false) :=
+  possiblePmf_generated' item actions
+
+/-- the tolerance is sharp: a one-entry PMF `[1 + e]` is a possible PMF exactly for `|e| ≤ n/d` (and `1 + e ≥ 0`) -/
+theorem possiblePmf_tolerance (r r' : Ref) (a : PyVal) (e : Rat) :
+    possiblePmf (.list r [.flt r' (1 + e)]) [a] =
+      decide (e ≤ (Generated.C15.absTolNum : Rat) / (Generated.C15.absTolDen : Rat) ∧
+              -e ≤ (Generated.C15.absTolNum : Rat) / (Generated.C15.absTolDen : Rat) ∧ 0 ≤ 1 + e) :=
+  possiblePmf_tolerance' r r' a e
+
+/-- **translator obligation: `pred_format`'s decision tree.**  `Generated.C15.predFormatTree` is the body of
+`SafeLearner.pred_format` as the translator reads it (ast) from the CURRENT coba/safety.py on every run: its `if` chain with every
+test mapped to a `PFAtom` by its source text, `return '<fmt>'`, `raise`, `std_pred = [std_pred]`, local bindings.  Running that
+tree (`pfRun`, the interpreter the driver executes) gives, for EVERY answer and action list, exactly what the model's `predFormat`
+gives for the repaired code - results and exceptions.  A reordered, dropped or edited branch of the source breaks this proof. -/
+theorem pred_format_table (sp : PyVal) (actions : Option (List PyVal)) :
+    pfRun Generated.C15.predFormatTree sp actions = predFormat Fixes.all sp actions :=
+  pred_format_table' sp actions
 
 end Coba.C15
